@@ -217,6 +217,7 @@ func C05(r *eng.Run) {
 	if cfg.App == AppReader {
 		cfg.SkipEmpty = r.T.Bool(sim.LCfg)
 		cfg.ProbeAfterError = !fragmented && r.T.Bool(sim.LCfg)
+		cfg.InterErr = cfg.OnInter == 1 && !cfg.PerFrame && !cfg.CopyDrain && r.T.Chance(sim.LCfg, 1, 3)
 		if (kind == "oversize" || kind == "oversize_ctrl" || kind == "oversize_msb") && r.T.Chance(sim.LCfg, 1, 3) {
 			// The size limit is independent of the header check.
 			cfg.SkipCheck = true
